@@ -1272,6 +1272,9 @@ func guardAtoms(fn *ssa.Function, start, target ssa.Instruction) []guardInfo {
 	seen := map[string]bool{}
 	for _, g := range dominatingGuards(fn, start, target) {
 		for _, a := range conjAtoms(fn, g.Cond, g.Pos, 0) {
+			if a.If == nil {
+				a.If = g.If
+			}
 			k := sprintf("%p/%v", a.Cond, a.Pos)
 			if !seen[k] {
 				seen[k] = true
